@@ -1,46 +1,82 @@
 /- REGENERATED from /repo on every run by /verif/harness/cmd/extract — do not edit. -/
 namespace Ibx.Gen.Smtp
 
-/-- keys of the `commands` map (value true), in source order -/
+/-- keys (value true) of the package's command set (its one package-level map[string]bool literal), in source order -/
 def commands : List String := ["HELO", "EHLO", "MAIL", "RCPT", "DATA", "RSET", "SEND", "SOML", "SAML", "VRFY", "EXPN", "HELP", "NOOP", "QUIT", "TURN", "STARTTLS", "AUTH"]
 
-/-- case labels of the any-state `switch cmd` in startSession -/
+/-- the states the command loop dispatches to a handler(cmd, arg), in source order -/
+def dispatchStates : List String := ["GREET", "READY", "MAIL"]
+
+/-- case labels of the any-state command switch of the command loop (the string switch on the command word outside the state dispatch) -/
 def anyStateCases : List (List String) := [["SEND", "SOML", "SAML", "EXPN", "HELP", "TURN"], ["VRFY"], ["NOOP"], ["RSET"], ["QUIT"]]
 
+/-- command table of the GREET handler -/
 def greetCases : List (List String) := [["HELO"], ["EHLO"], ["<default>"]]
 
+/-- command table of the READY handler -/
 def readyCases : List (List String) := [["STARTTLS"], ["AUTH"], ["MAIL"], ["EHLO"], ["<default>"]]
 
-def mailCases : List (List String) := [["RCPT"], ["DATA"], ["EHLO"]]
+/-- command table of the MAIL handler -/
+def mailCases : List (List String) := [["RCPT"], ["DATA"], ["EHLO"], ["<default>"]]
 
+/-- the string switch under the AUTH clause of the READY table (through helpers) -/
 def authCases : List (List String) := [["PLAIN"], ["LOGIN"], ["<default>"]]
 
-/-- shape of Session.reset(): keepsGreet | promotesToReady | unknown -/
+/-- what that switch looks at -/
+def authTag : String := "strings.SplitN($arg, \" \", 3)[0]"
+
+/-- (state, clause labels, exits) for every clause of the any-state table (*) and of the GREET / READY / MAIL tables, and for what a handler does outside its table (<after>); exits in the notation of dataPaths -/
+def transitions : List (String × String × List String) := [
+  ("*", "SEND,SOML,SAML,EXPN,HELP,TURN", ["send:502; continue"]),
+  ("*", "VRFY", ["send:252; continue"]),
+  ("*", "NOOP", ["send:250; continue"]),
+  ("*", "RSET", ["reset; send:250; continue"]),
+  ("*", "QUIT", ["send:221; state:QUIT; continue"]),
+  ("GREET", "HELO", ["[$h($arg)#1 != nil]; send:501; return", "send:250; state:READY; return"]),
+  ("GREET", "EHLO", ["[$h($arg)#1 != nil]; send:501; return", "send:250-; send:250-; send:250-; ?[$r.Server.config.TLSEnabled][!$r.Server.config.ForceTLS][$r.Server.tlsConfig != nil][$r.tlsState == nil]send:250-; send:250; state:READY; return"]),
+  ("GREET", "<default>", ["send:503; return"]),
+  ("READY", "STARTTLS", ["[!$r.Server.config.TLSEnabled]; send:454; return", "[$r.tlsState != nil]; send:454; return", "send:220; state:GREET; return"]),
+  ("READY", "AUTH", ["[strings.SplitN($arg, \" \", 3)[0] == \"PLAIN\"]; [len(strings.SplitN($arg, \" \", 3)) != 2]; send:500; return", "[strings.SplitN($arg, \" \", 3)[0] == \"PLAIN\"]; send:235; return", "[strings.SplitN($arg, \" \", 3)[0] == \"LOGIN\"]; send:334; state:LOGIN; return", "[default]; send:500; return"]),
+  ("READY", "MAIL", ["[fromRegex.FindStringSubmatch($arg) == nil]; send:501; return", "[fromRegex.FindStringSubmatch($arg)[2] != \"\"]; [!$h(fromRegex.FindStringSubmatch($arg)[2])#1]; send:501; return", "[fromRegex.FindStringSubmatch($arg)[2] != \"\"]; [$h(fromRegex.FindStringSubmatch($arg)[2])#0[\"SIZE\"] != \"\"]; [strconv.ParseInt($h(fromRegex.FindStringSubmatch($arg)[2])#0[\"SIZE\"], 10, 32)#1 != nil]; send:501; return", "[fromRegex.FindStringSubmatch($arg)[2] != \"\"]; [$h(fromRegex.FindStringSubmatch($arg)[2])#0[\"SIZE\"] != \"\"]; [int(strconv.ParseInt($h(fromRegex.FindStringSubmatch($arg)[2])#0[\"SIZE\"], 10, 32)#0) > $r.config.MaxMessageBytes]; send:552; return", "call:ParseOrigin; [ParseOrigin(..)#1 != nil]; send:501; return", "call:ParseOrigin; emit:BeforeMailFromAccepted; [$v == event.ActionDeny]; send:*; return", "call:ParseOrigin; emit:BeforeMailFromAccepted; set:from=ParseOrigin(..)#0; call:ShouldAccept; [$v == event.ActionDefer]; [!ShouldAccept(..)]; send:501; return", "call:ParseOrigin; emit:BeforeMailFromAccepted; set:from=ParseOrigin(..)#0; call:ShouldAccept; send:250; state:MAIL; return"]),
+  ("READY", "EHLO", ["reset; send:250; return"]),
+  ("READY", "<default>", ["send:503; return"]),
+  ("MAIL", "RCPT", ["[len($arg) < 4 || strings.ToUpper($arg[0:3]) != \"TO:\"]; send:501; return", "call:NewRecipient; [NewRecipient(..)#1 != nil]; send:501; return", "call:NewRecipient; emit:BeforeRcptToAccepted; [$v == event.ActionDeny]; send:*; return", "call:NewRecipient; emit:BeforeRcptToAccepted; call:ShouldAccept; [$v == event.ActionDefer]; [!ShouldAccept(..)]; send:550; return", "call:NewRecipient; emit:BeforeRcptToAccepted; call:ShouldAccept; [len($rcpts) >= $r.config.MaxRecipients]; send:552; return", "call:NewRecipient; emit:BeforeRcptToAccepted; call:ShouldAccept; set:rcpts=append($rcpts, NewRecipient(..)#0); send:250; return"]),
+  ("MAIL", "DATA", ["[$arg != \"\"]; send:501; return", "[len($rcpts) == 0]; send:503; return", "state:DATA; return"]),
+  ("MAIL", "EHLO", ["reset; send:250; return"]),
+  ("MAIL", "<default>", ["send:503; return"])]
+
+/-- what the reset helper (the one the any-state RSET clause calls) does: keepsGreet = clears sender and recipients and enters READY unless the state is GREET | promotesToReady = clears them and enters READY | unknown -/
 def resetFromGreet : String := "keepsGreet"
 
-/-- dataHandler enforces MaxMessageBytes after reading the block: afterRead | none | unknown -/
+/-- the exits of the DATA handler: replies (send:code), helper and library calls of interest, state changes, in execution order; [c] = the guard of an exit, ?[c]e = e happens under c and execution goes on -/
+def dataPaths : List String := ["send:354; ?call:ReadDotBytes; [$h()#1 != nil]; ?[$h()#1.(net.Error)#1][$h()#1.(net.Error)#0.Timeout()]send:221; state:QUIT; return", "send:354; ?call:ReadDotBytes; [len(ReadDotBytes(..)#0) > $r.config.MaxMessageBytes]; send:552; reset; return", "send:354; ?call:ReadDotBytes; call:Deliver; [Deliver(..) != nil]; send:451; reset; return", "send:354; ?call:ReadDotBytes; call:Deliver; send:250; reset; return"]
+
+/-- the DATA handler refuses (552, reset, return) a block longer than MaxMessageBytes right after reading it: afterRead | none | unknown -/
 def dataSizeCheck : String := "afterRead"
 
-/-- number of s.reset() calls in dataHandler (one per exit after a successful read: 552, 451, 250) -/
+/-- number of exits of the DATA handler that end with the reset helper (552, 451, 250) -/
 def dataHandlerResets : Nat := 3
 
-/-- the recipient limit comparison `len(s.recipients) <op> s.config.MaxRecipients` -/
-def rcptLimitTest : String × String := (">=", "s.config.MaxRecipients")
+/-- the exits of the RCPT clause of the MAIL table (same notation as dataPaths) -/
+def rcptPaths : List String := ["[len($arg) < 4 || strings.ToUpper($arg[0:3]) != \"TO:\"]; send:501; return", "call:NewRecipient; [NewRecipient(..)#1 != nil]; send:501; return", "call:NewRecipient; emit:BeforeRcptToAccepted; [$v == event.ActionDeny]; send:*; return", "call:NewRecipient; emit:BeforeRcptToAccepted; call:ShouldAccept; [$v == event.ActionDefer]; [!ShouldAccept(..)]; send:550; return", "call:NewRecipient; emit:BeforeRcptToAccepted; call:ShouldAccept; [len($rcpts) >= $r.config.MaxRecipients]; send:552; return", "call:NewRecipient; emit:BeforeRcptToAccepted; call:ShouldAccept; set:rcpts=append($rcpts, NewRecipient(..)#0); send:250; return"]
 
-/-- minimum RCPT argument length test guarding arg[0:3] -/
+/-- the recipient limit comparison `len(<recipients>) <op> <config>.MaxRecipients` -/
+def rcptLimitTest : String × String := (">=", "MaxRecipients")
+
+/-- minimum RCPT argument length test guarding $arg[0:3] (the only comparison of len($arg) with a literal among the guards of rcptPaths) -/
 def rcptArgMin : Option (String × Nat) := some ("<", 4)
 
-/-- parseCmd: commands shorter than this are garbled -/
+/-- the command parser: a command word shorter than this is garbled -/
 def cmdMinLen : Option (String × Nat) := some ("<", 4)
 
-/-- source text of fromRegex -/
+/-- source text of the MAIL FROM expression -/
 def fromRegex : Option String := some "(?i)^FROM:\\s*<((?:(?:\\\\>|[^>])+|\"[^\"]+\"@[^>])+)?>( ([\\w= ]|=<>)+)?$"
 
-/-- source text of the parseArgs expression -/
+/-- source text of the ESMTP parameter expression -/
 def argsRegex : Option String := some " (\\w+)=(\\w+|<>)"
 
-/-- every index / slice expression of handler.go -/
-def sliceSites : List String := ["arg[0:3]", "arg[3:]", "arg[:idx]", "args[\"SIZE\"]", "args[0]", "args[1]", "args[strings.ToUpper(m[1])]", "commands[cmd]", "line[0:l]", "line[l+1:]", "m[1]", "m[2]"]
+/-- every index / slice expression of the package in canonical form ($cmd / $arg: the handler's parameters, $p: a parameter, $pv / $v: a re-assigned parameter / local, locals replaced by their definitions, helpers looked through) -/
+def sliceSites : List String := ["$arg[0:3]", "$arg[3:]", "$arg[:strings.IndexRune($arg, ' ')]", "$each(regexp.MustCompile(\" (\\\\w+)=(\\\\w+|<>)\").FindAllStringSubmatch(fromRegex.FindStringSubmatch($arg)[2], -1))[1]", "$each(regexp.MustCompile(\" (\\\\w+)=(\\\\w+|<>)\").FindAllStringSubmatch(fromRegex.FindStringSubmatch($arg)[2], -1))[2]", "$h(fromRegex.FindStringSubmatch($arg)[2])#0[\"SIZE\"]", "$pv[$v + 1:]", "$pv[0:$v]", "$res[strings.ToUpper($each(regexp.MustCompile(\" (\\\\w+)=(\\\\w+|<>)\").FindAllStringSubmatch(fromRegex.FindStringSubmatch($arg)[2], -1))[1])]", "commands[$cmd]", "fromRegex.FindStringSubmatch($arg)[1]", "fromRegex.FindStringSubmatch($arg)[2]", "strings.SplitN($arg, \" \", 3)[0]", "strings.SplitN($arg, \" \", 3)[1]"]
 
 /-- statements of StoreManager.Deliver the model relies on (present ones) -/
 def deliverShape : List String := ["call enmime.DecodeHeaders", "call .BeforeMessageStored.Emit", "call .ShouldStore", "call .Store.AddMessage", "call .AfterMessageStored.Emit", "call io.MultiReader", "format %s  for <%s>; %s\r\n", "format Return-Path: <%s>\r\n"]
